@@ -669,6 +669,96 @@ def _pass_plain_locals(fn) -> bool:
     return changed
 
 
+def _pass_walrus(fn) -> bool:
+    """`if (x := E) <rest>:` -> `x = E; if x <rest>:` (also for the value of a simple statement) when the
+    assignment expression is evaluated unconditionally and first in that header; `while (x := E) ..:` becomes
+    `while True: x = E; if not (x ..): break` (no else clause)."""
+    changed = False
+    for node in ast.walk(fn):
+        for fld in ("body", "orelse", "finalbody"):
+            b = getattr(node, fld, None)
+            if not (isinstance(b, list) and b and isinstance(b[0], ast.stmt)):
+                continue
+            i = 0
+            while i < len(b):
+                st = b[i]
+                hdr = None
+                if isinstance(st, ast.If):
+                    hdr = "test"
+                elif isinstance(st, ast.While) and not st.orelse:
+                    hdr = "test"
+                elif isinstance(st, (ast.Expr, ast.Return, ast.Assign, ast.AugAssign, ast.AnnAssign)) and getattr(st, "value", None) is not None:
+                    hdr = "value"
+                if hdr is None:
+                    i += 1
+                    continue
+                e = getattr(st, hdr)
+                w = _first_walrus(e)
+                if w is None:
+                    i += 1
+                    continue
+                asg = ast.copy_location(ast.Assign(targets=[ast.Name(id=w.target.id, ctx=ast.Store())], value=w.value), st)
+                new_e = _replace_node(e, w, ast.copy_location(ast.Name(id=w.target.id, ctx=ast.Load()), w))
+                if isinstance(st, ast.While):
+                    guard = ast.copy_location(ast.If(test=ast.UnaryOp(op=ast.Not(), operand=new_e), body=[ast.copy_location(ast.Break(), st)], orelse=[]), st)
+                    b[i] = ast.copy_location(ast.While(test=ast.Constant(value=True), body=[asg, guard] + st.body, orelse=[]), st)
+                else:
+                    setattr(st, hdr, new_e)
+                    b.insert(i, asg)
+                changed = True
+                # re-examine the same statement (several walruses)
+            # end while
+    if changed:
+        ast.fix_missing_locations(fn)
+    return changed
+
+
+def _first_walrus(e: ast.AST):
+    """the NamedExpr evaluated first and unconditionally in ``e`` (nothing effectful before it), else None"""
+    def visit(x):
+        if isinstance(x, ast.NamedExpr):
+            if isinstance(x.target, ast.Name) and not any(isinstance(y, ast.NamedExpr) for y in ast.walk(x.value)):
+                return "found", x
+            return "stop", None
+        if isinstance(x, (ast.Constant, ast.Name)):
+            return "pure", None
+        if isinstance(x, ast.Attribute):
+            return visit(x.value)
+        if isinstance(x, ast.UnaryOp):
+            return visit(x.operand)
+        if isinstance(x, ast.Compare):
+            for y in [x.left] + list(x.comparators):
+                r = visit(y)
+                if r[0] != "pure":
+                    return r
+            return "pure", None
+        if isinstance(x, ast.BoolOp):
+            r = visit(x.values[0])
+            return r if r[0] != "pure" else ("stop", None)
+        if isinstance(x, ast.BinOp):
+            r = visit(x.left)
+            return r if r[0] != "pure" else visit(x.right)
+        if isinstance(x, ast.Call):
+            r = visit(x.func) if isinstance(x.func, ast.Attribute) else ("pure", None)
+            if r[0] != "pure":
+                return r
+            for y in list(x.args) + [k.value for k in x.keywords]:
+                r = visit(y)
+                if r[0] != "pure":
+                    return r
+            return "stop", None  # an effectful call before any walrus
+        if isinstance(x, (ast.Tuple, ast.List)):
+            for y in x.elts:
+                r = visit(y)
+                if r[0] != "pure":
+                    return r
+            return "pure", None
+        return "stop", None
+
+    r = visit(e)
+    return r[1] if r[0] == "found" else None
+
+
 def _pass_adjacent_temp(fn) -> bool:
     """explaining local used once, in the very next statement: `e = E(); f(e)` -> `f(E())`.
     Only when the local is stored once and loaded once in the whole function, the use sits in the header of a
@@ -1014,6 +1104,7 @@ def inline_tree(tree: ast.Module, keep: Iterable[str]) -> ast.Module:
             sub.body = si.block(sub.body)
     for cls, fn in units:
         try:
+            _pass_walrus(fn)
             _pass_plain_locals(fn)
             _pass_positional(fn, mod, cls)
             _pass_split_swaps(fn)
